@@ -444,6 +444,15 @@ fn input_source(c: &Case, k: usize, m: &Module, probe: Option<&Sp>) -> String {
         }
     }
     writeln!(s, "println(\"I:in{}\")", k).unwrap();
+    if m.fault == 1 {
+        // the imports load, then the input is rejected: by the compiler (undefined name, assignment to an immutable
+        // name) or by type inference (annotation mismatch).  Nothing of the input runs.
+        match k % 3 {
+            0 => s.push_str("println(nosuchname_xyz)\n"),
+            1 => writeln!(s, "let zi{} = 1\nzi{} = 2", k, k).unwrap(),
+            _ => writeln!(s, "let zt{}: int = \"s\"", k).unwrap(),
+        }
+    }
     {
         // advance the counter of every module this input imports under a qualifier and by its own path (the names
         // of symlinks and manifest entries are never paths of files), and print its new value
@@ -554,8 +563,9 @@ fn coq_squery(c: &Case) -> String {
         "Build_sq {} {} {}",
         coq_files(c),
         coq_list(&c.inputs, |m| format!(
-            "Build_module {} [] 0",
-            coq_list(&m.imports, |i| format!("Build_import {} {}", coq_ids(&i.path), coq_form(&i.form)))
+            "Build_module {} [] {}",
+            coq_list(&m.imports, |i| format!("Build_import {} {}", coq_ids(&i.path), coq_form(&i.form))),
+            m.fault
         )),
         coq_list(&c.sprobes, |(k, s)| format!("({}%nat, {})", k, coq_sp(s)))
     )
@@ -649,6 +659,9 @@ fn text_of(c: &Case) -> String {
     }
     for m in &c.inputs {
         write!(s, ";input").unwrap();
+        if m.fault != 0 {
+            write!(s, ";fault {}", m.fault).unwrap();
+        }
         for i in &m.imports {
             let path = i.path.iter().map(|&x| nm(x)).collect::<Vec<_>>().join(".");
             match &i.form {
@@ -701,7 +714,10 @@ fn parse_case(text: &str) -> Option<Case> {
                 c.inputs.push(Module::default())
             }
             "opt" => c.opt = w.get(1)?.parse().ok()?,
-            "fault" => c.files.last_mut()?.1.fault = w.get(1)?.parse().ok()?,
+            "fault" => {
+                let f = w.get(1)?.parse().ok()?;
+                if in_input { c.inputs.last_mut()?.fault = f } else { c.files.last_mut()?.1.fault = f }
+            }
             "sprobe" => {
                 let k: usize = w.get(1)?.parse().ok()?;
                 let sp = match *w.get(2)? {
@@ -1506,8 +1522,20 @@ fn session_from(rng: &mut Rng, mut c: Case, n: usize) -> Case {
         let loaded_before: Vec<Import> = inputs[0].imports.iter().filter(|i| i.path.first() != Some(&STD)).cloned().collect();
         let at = 1 + rng.below(inputs.len() as u64) as usize;     // position of the failing input (1..=k)
         let mut bad = Module::default();
-        let kind = rng.below(5);
+        let kind = rng.below(7);
         match kind {
+            5 | 6 => {
+                // everything loads (modules seen before and new ones), then the input itself is rejected
+                for i in entry_imports.iter().rev().take(2) {
+                    if i.path.first() != Some(&STD) {
+                        bad.imports.push(Import { path: i.path.clone(), form: Form::Alias(77) });
+                    }
+                }
+                if let Some((p, _)) = c.files.iter().find(|(p, m)| p.len() == 1 && m.fault == 0 && !entry_imports.iter().any(|i| i.path == **p)) {
+                    bad.imports.push(Import { path: p.clone(), form: Form::Alias(76) });
+                }
+                bad.fault = 1;
+            }
             0 => bad.imports.push(Import { path: vec![MISSING], form: Form::Module }),
             1 => {
                 c.files.push((vec![120], Module { imports: Vec::new(), defs: vec![Def { name: 300, is_pub: true }], fault: 1 }));
@@ -1545,6 +1573,9 @@ fn session_from(rng: &mut Rng, mut c: Case, n: usize) -> Case {
             }
         }
         let at = at.min(inputs.len());
+        // what the failing input itself loaded is imported again afterwards as well
+        let loaded_by_bad: Vec<Vec<Id>> = bad.imports.iter().map(|i| i.path.clone())
+            .filter(|p| c.files.iter().any(|(q, m)| q == p && m.fault == 0 && q.len() == 1 && ![120, 121, 122].contains(&q[0]))).collect();
         inputs.insert(at, bad);
         // ... and afterwards import again (same spelling, and as an alias) what was loaded before it
         let mut again = Module::default();
@@ -1571,6 +1602,11 @@ fn session_from(rng: &mut Rng, mut c: Case, n: usize) -> Case {
                     }
                     _ => {}
                 }
+            }
+        }
+        for p in loaded_by_bad.iter().take(2) {
+            if !again.imports.iter().any(|i| i.path == *p) {
+                again.imports.push(Import { path: p.clone(), form: Form::Alias(73) });
             }
         }
         if kind == 2 && rng.chance(1, 2) {
